@@ -124,10 +124,47 @@ pub fn restart_json_include_opts(world: &mut World, stats: &mut RunStats, json_r
 pub fn restart_csv(world: &mut World, stats: &mut RunStats) -> (ExecResult, Vec<Violation>) {
     let mut violations = Vec::new();
     let n = world.restart_count;
-    let path = format!("/sim/c{}/store.store.stam.csv", n);
+    // one place for the whole run, as a user would: files of unchanged items are not rewritten
+    let path = "/sim/csv/store.store.stam.csv".to_string();
     stats.probe("restart_csv");
+    // unspecified (see DESIGN.md): a resource with empty text is never marked as changed by
+    // set_filename, so its stand-off file is never written; such stores are not restarted as CSV
+    let has_unnamed_empty = world
+        .store
+        .resources()
+        .any(|r| r.as_ref().filename().is_none() && r.textlen() == 0);
+    if has_unnamed_empty {
+        stats.probe("restart_csv_skipped:empty_text_resource");
+        return (ExecResult::Ok(None), violations);
+    }
     let r = catch(|| -> Result<(), String> {
         world.store.set_filename(&path);
+        // the format's stated precondition: every resource and dataset has a filename. set_dataformat
+        // names those that came from another format; items added after a CSV load are named here.
+        let res: Vec<(usize, String)> = world
+            .store
+            .resources()
+            .filter(|r| r.as_ref().filename().is_none())
+            .map(|r| (r.handle().as_usize(), r.id().unwrap_or("").to_string()))
+            .collect();
+        for (h, id) in res {
+            let name = format!("/sim/csv/r{}_{}_{}.txt", n, h, safe_name(&id));
+            let r: &mut TextResource = <AnnotationStore as StoreFor<TextResource>>::get_mut(&mut world.store, TextResourceHandle::new(h))
+                .map_err(|e| format!("{}", e))?;
+            r.set_filename(&name);
+        }
+        let sets: Vec<(usize, String)> = world
+            .store
+            .datasets()
+            .filter(|r| r.as_ref().filename().is_none())
+            .map(|r| (r.handle().as_usize(), r.id().unwrap_or("").to_string()))
+            .collect();
+        for (h, id) in sets {
+            let name = format!("/sim/csv/s{}_{}_{}.annotationset.stam.csv", n, h, safe_name(&id));
+            let r: &mut AnnotationDataSet = <AnnotationStore as StoreFor<AnnotationDataSet>>::get_mut(&mut world.store, AnnotationDataSetHandle::new(h))
+                .map_err(|e| format!("{}", e))?;
+            r.set_filename(&name);
+        }
         world.store.save().map_err(|e| format!("{}", e))
     });
     match r {
@@ -136,12 +173,17 @@ pub fn restart_csv(world: &mut World, stats: &mut RunStats) -> (ExecResult, Vec<
         Err(p) => return (ExecResult::Panic(format!("save: {}", p)), violations),
     }
     let files = world.fs.snapshot();
+    if std::env::var("VERIF_DUMP_FS").is_ok() {
+        for (k, v) in files.iter().filter(|(k, _)| k.contains("/csv/")) {
+            println!("[{}]\n{}", k, String::from_utf8_lossy(v));
+        }
+    }
     let cfg = world.cfg.config();
     let new = match catch(|| AnnotationStore::from_file(&path, cfg)) {
         Ok(Ok(s)) => s,
         Ok(Err(e)) => {
             let mut dump = String::new();
-            for (k, v) in files.iter().filter(|(k, _)| k.contains(&format!("/c{}/", n))) {
+            for (k, v) in files.iter().filter(|(k, _)| k.contains("/csv/")) {
                 dump += &format!("[{}]\n{}\n", k, String::from_utf8_lossy(v));
             }
             trunc(&mut dump, 600);
